@@ -185,37 +185,52 @@ Section Chain.
         else Some (dist, mcp)
       end.
 
+    (* pattern analysis: `if (repeat == rep_untested) {...}`; returns (repeat, srcPatternLength) *)
+    Definition pa_repeat (s : wst) : repst * Z :=
+      let pattern := w_pattern in
+      match w_rep s with
+      | rep_untested =>
+        if ((pattern mod 65536) =? (pattern / 65536)) && ((pattern mod 256) =? (pattern / 16777216))
+        then (rep_confirmed, countPattern (ip + 4) iHighLimit pattern + 4)
+        else (rep_not, w_spl s)
+      | r => (r, w_spl s)
+      end.
+
+    (* forwardPatternLength of the candidate at index mci (matchPtr = the candidate's address) *)
+    Definition pa_forward (mci : Z) : Z :=
+      let pattern := w_pattern in
+      let extDict := mci <? prefixIdx in
+      let matchPtr := mci in
+      let iLimit := if extDict then prefixIdx else iHighLimit in
+      let fwd := countPattern (matchPtr + 4) iLimit pattern + 4 in
+      if extDict && (matchPtr + fwd =? iLimit)
+      then fwd + countPattern prefixIdx iHighLimit (rotatePattern fwd pattern) else fwd.
+
+    (* backLength of the candidate at index mci, limited so as not to go further than lowestMatchIndex *)
+    Definition pa_backward (mci : Z) : Z :=
+      let pattern := w_pattern in
+      let extDict := mci <? prefixIdx in
+      let matchPtr := mci in
+      let lowestMatchPtr := if extDict then dictIdx else prefixIdx in
+      let backLength := reverseCountPattern matchPtr lowestMatchPtr pattern in
+      let backLength :=
+        if negb extDict && (matchPtr - backLength =? prefixIdx) && (dictIdx <? prefixIdx)
+        then backLength + reverseCountPattern prefixIdx dictIdx (rotatePattern (u32 (- backLength)) pattern)
+        else backLength in
+      u32 (mci - Z.max (u32 (mci - u32 backLength)) w_lowest).
+
     (* the pattern-analysis block, entered with distNextMatch == 1 and matchChainPos == 0 *)
     Definition pa_block (s : wst) : wstep + wst :=           (* inl: continue/break taken; inr: fall through *)
       let matchIndex := w_mi s in
       let matchCandidateIdx := u32 (matchIndex - 1) in
       let pattern := w_pattern in
-      let '(rep, spl) :=
-        match w_rep s with
-        | rep_untested =>
-          if ((pattern mod 65536) =? (pattern / 65536)) && ((pattern mod 256) =? (pattern / 16777216))
-          then (rep_confirmed, countPattern (ip + 4) iHighLimit pattern + 4)
-          else (rep_not, w_spl s)
-        | r => (r, w_spl s)
-        end in
+      let '(rep, spl) := pa_repeat s in
       let s := mkW matchIndex (w_longest s) (w_off s) (w_sback s) (w_mcp s) rep spl in
       if (match rep with rep_confirmed => true | _ => false end)
          && (matchCandidateIdx >=? w_lowest) && protectDictEnd prefixIdx matchCandidateIdx then
-        let extDict := matchCandidateIdx <? prefixIdx in
-        let matchPtr := matchCandidateIdx in
-        if rd32 vrd matchPtr =? pattern then
-          let iLimit := if extDict then prefixIdx else iHighLimit in
-          let fwd := countPattern (matchPtr + 4) iLimit pattern + 4 in
-          let fwd := if extDict && (matchPtr + fwd =? iLimit)
-                     then fwd + countPattern prefixIdx iHighLimit (rotatePattern fwd pattern) else fwd in
-          let lowestMatchPtr := if extDict then dictIdx else prefixIdx in
-          let backLength := reverseCountPattern matchPtr lowestMatchPtr pattern in
-          let backLength :=
-            if negb extDict && (matchPtr - backLength =? prefixIdx) && (dictIdx <? prefixIdx)
-            then backLength + reverseCountPattern prefixIdx dictIdx (rotatePattern (u32 (- backLength)) pattern)
-            else backLength in
-          (* Limit backLength not go further than lowestMatchIndex *)
-          let backLength := u32 (matchCandidateIdx - Z.max (u32 (matchCandidateIdx - u32 backLength)) w_lowest) in
+        if rd32 vrd matchCandidateIdx =? pattern then              (* good candidate *)
+          let fwd := pa_forward matchCandidateIdx in
+          let backLength := pa_backward matchCandidateIdx in
           let currentSegmentLength := backLength + fwd in
           if (currentSegmentLength >=? spl) && (fwd <=? spl) then
             let newMatchIndex := u32 (u32 (matchCandidateIdx + u32 fwd) - u32 spl) in
@@ -399,6 +414,18 @@ Section Chain.
     Definition with_tabs (s : cst) (t : htabs) : cst := mkS (c_ip s) (c_anchor s) (c_op s) (c_rout s) t (c_hw s).
     Definition set_len (m : hmatch) (l : Z) : hmatch := mkHM (hm_off m) l (hm_back m).
 
+    (* `if (pos + len <= mflimit) { start = pos + len - back0; m = LZ4HC_InsertAndGetWiderMatch(ctx, start, pos, matchlimit, len, ...);
+        start += m.back; } else m = nomatch;`  (back0 = 2 in _Search2, 3 in _Search3).
+       None = out of fuel.  When no search is made, the start variable keeps a value that is not read again: 0 here. *)
+    Definition search_next (t : htabs) (pos len back0 : Z) : option (Z * hmatch * htabs) :=
+      if pos + len <=? hc_mflimit then
+        let start := pos + len - back0 in
+        match insertAndGetWiderMatch t start pos hc_matchlimit len maxNbAttempts hc_pa false false with
+        | None => None
+        | Some (m, t') => Some (start + hm_back m, m, t')
+        end
+      else Some (0, nomatch, t).
+
     (* loop head: `while (ip <= mflimit) { m1 = LZ4HC_InsertAndFindBestMatch(...); if (m1.len<MINMATCH) { ip++; continue; } start0 = ip; m0 = m1;` *)
     Definition main_step (s : cst) (oend : Z) : (pc * cst) + cres :=
       let ip := c_ip s in
@@ -412,18 +439,14 @@ Section Chain.
         end
       else inr (c_last_literals s (match lim with FillOutput => oend + LASTLITERALS | _ => oend end)).
 
+    (* `if (start0 < ip) { if (start2 < ip + m0.len) { ip = start0; m1 = m0; } }` *)
+    Definition s2_restore (start0 : Z) (m0 : hmatch) (ip : Z) (m1 : hmatch) (start2 : Z) : Z * hmatch :=
+      if (start0 <? ip) && (start2 <? ip + hm_len m0) then (start0, m0) else (ip, m1).
+
     (* from `_Search2:` to `_Search3:` *)
     Definition search2_step (start0 : Z) (m0 m1 : hmatch) (s : cst) (oend : Z) : (pc * cst) + cres :=
       let ip := c_ip s in
-      let r :=
-        if ip + hm_len m1 <=? hc_mflimit then
-          let start2 := ip + hm_len m1 - 2 in
-          match insertAndGetWiderMatch (c_tabs s) start2 ip hc_matchlimit (hm_len m1) maxNbAttempts hc_pa false false with
-          | None => None
-          | Some (m2, t) => Some (start2 + hm_back m2, m2, t)
-          end
-        else Some (0, nomatch, c_tabs s) in          (* start2 keeps its previous value: not read before being set again *)
-      match r with
+      match search_next (c_tabs s) ip (hm_len m1) 2 with
       | None => inr CUndef
       | Some (start2, m2, t) =>
         let s := with_tabs s t in
@@ -433,33 +456,48 @@ Section Chain.
           | inr r => inr r
           end
         else
-          let '(ip, m1) :=
-            if (start0 <? ip) && (start2 <? ip + hm_len m0) then (start0, m0) else (ip, m1) in
+          let '(ip, m1) := s2_restore start0 m0 ip m1 start2 in
           if start2 - ip <? 3 then                   (* First Match too small : removed *)
             inl (PSearch2 start0 m0 m2, with_ip s start2)
           else inl (PSearch3 start0 m0 m1 start2 m2, with_ip s ip)
       end.
 
+    (* head of `_Search3:` : `if ((start2 - ip) < OPTIMAL_ML) {...}`; returns (start2, m2) *)
+    Definition s3_adjust (ip : Z) (m1 : hmatch) (start2 : Z) (m2 : hmatch) : Z * hmatch :=
+      if start2 - ip <? HC_OPTIMAL_ML then
+        let new_ml := hm_len m1 in
+        let new_ml := if new_ml >? HC_OPTIMAL_ML then HC_OPTIMAL_ML else new_ml in
+        let new_ml := if ip + new_ml >? start2 + hm_len m2 - MINMATCH then (start2 - ip) + hm_len m2 - MINMATCH else new_ml in
+        let correction := new_ml - (start2 - ip) in
+        if correction >? 0 then (start2 + correction, set_len m2 (hm_len m2 - correction)) else (start2, m2)
+      else (start2, m2).
+
+    (* "can write Seq1 immediately ==> Seq2 is removed": the adjustment of (start2, m2) that becomes (start0, m0) *)
+    Definition s3_remove2 (ip : Z) (m1 : hmatch) (start2 : Z) (m2 : hmatch) (start3 : Z) (m3 : hmatch) : Z * hmatch :=
+      if start2 <? ip + hm_len m1 then
+        let correction := ip + hm_len m1 - start2 in
+        let start2' := start2 + correction in
+        let m2' := set_len m2 (hm_len m2 - correction) in
+        if hm_len m2' <? MINMATCH then (start3, m3) else (start2', m2')
+      else (start2, m2).
+
+    (* "we have 3 ascending matches; let's write the first one ML1": returns (m1, start2, m2) *)
+    Definition s3_ml1 (ip : Z) (m1 : hmatch) (start2 : Z) (m2 : hmatch) : hmatch * Z * hmatch :=
+      if start2 <? ip + hm_len m1 then
+        if start2 - ip <? HC_OPTIMAL_ML then
+          let l1 := if hm_len m1 >? HC_OPTIMAL_ML then HC_OPTIMAL_ML else hm_len m1 in
+          let l1 := if ip + l1 >? start2 + hm_len m2 - MINMATCH then (start2 - ip) + hm_len m2 - MINMATCH else l1 in
+          let correction := l1 - (start2 - ip) in
+          if correction >? 0 then (set_len m1 l1, start2 + correction, set_len m2 (hm_len m2 - correction))
+          else (set_len m1 l1, start2, m2)
+        else (set_len m1 (start2 - ip), start2, m2)
+      else (m1, start2, m2).
+
     (* from `_Search3:` to the end of the loop body *)
     Definition search3_step (start0 : Z) (m0 m1 : hmatch) (start2 : Z) (m2 : hmatch) (s : cst) (oend : Z) : (pc * cst) + cres :=
       let ip := c_ip s in
-      let '(start2, m2) :=
-        if start2 - ip <? HC_OPTIMAL_ML then
-          let new_ml := hm_len m1 in
-          let new_ml := if new_ml >? HC_OPTIMAL_ML then HC_OPTIMAL_ML else new_ml in
-          let new_ml := if ip + new_ml >? start2 + hm_len m2 - MINMATCH then (start2 - ip) + hm_len m2 - MINMATCH else new_ml in
-          let correction := new_ml - (start2 - ip) in
-          if correction >? 0 then (start2 + correction, set_len m2 (hm_len m2 - correction)) else (start2, m2)
-        else (start2, m2) in
-      let r :=
-        if start2 + hm_len m2 <=? hc_mflimit then
-          let start3 := start2 + hm_len m2 - 3 in
-          match insertAndGetWiderMatch (c_tabs s) start3 start2 hc_matchlimit (hm_len m2) maxNbAttempts hc_pa false false with
-          | None => None
-          | Some (m3, t) => Some (start3 + hm_back m3, m3, t)
-          end
-        else Some (0, nomatch, c_tabs s) in
-      match r with
+      let '(start2, m2) := s3_adjust ip m1 start2 m2 in
+      match search_next (c_tabs s) start2 (hm_len m2) 3 with
       | None => inr CUndef
       | Some (start3, m3, t) =>
         let s := with_tabs s t in
@@ -475,13 +513,7 @@ Section Chain.
           end
         else if start3 <? ip + hm_len m1 + 3 then     (* Not enough space for match 2 : remove it *)
           if start3 >=? ip + hm_len m1 then           (* can write Seq1 immediately ==> Seq2 is removed, so Seq3 becomes Seq1 *)
-            let '(start2, m2) :=
-              if start2 <? ip + hm_len m1 then
-                let correction := ip + hm_len m1 - start2 in
-                let start2' := start2 + correction in
-                let m2' := set_len m2 (hm_len m2 - correction) in
-                if hm_len m2' <? MINMATCH then (start3, m3) else (start2', m2')
-              else (start2, m2) in
+            let '(start2, m2) := s3_remove2 ip m1 start2 m2 start3 m3 in
             match c_encode s (hm_len m1) (hm_off m1) oend with
             | inr r => inr r
             | inl s1 => inl (PSearch2 start2 m2 m3, with_ip s1 start3)
@@ -489,16 +521,7 @@ Section Chain.
           else inl (PSearch3 start0 m0 m1 start3 m3, s)
         else
           (* OK, now we have 3 ascending matches; let's write the first one ML1. *)
-          let '(m1, start2, m2) :=
-            if start2 <? ip + hm_len m1 then
-              if start2 - ip <? HC_OPTIMAL_ML then
-                let l1 := if hm_len m1 >? HC_OPTIMAL_ML then HC_OPTIMAL_ML else hm_len m1 in
-                let l1 := if ip + l1 >? start2 + hm_len m2 - MINMATCH then (start2 - ip) + hm_len m2 - MINMATCH else l1 in
-                let correction := l1 - (start2 - ip) in
-                if correction >? 0 then (set_len m1 l1, start2 + correction, set_len m2 (hm_len m2 - correction))
-                else (set_len m1 l1, start2, m2)
-              else (set_len m1 (start2 - ip), start2, m2)
-            else (m1, start2, m2) in
+          let '(m1, start2, m2) := s3_ml1 ip m1 start2 m2 in
           match c_encode s (hm_len m1) (hm_off m1) oend with
           | inr r => inr r
           | inl s1 => inl (PSearch3 start0 m0 m2 start3 m3, with_ip s1 start2)
